@@ -192,6 +192,12 @@ func exec(c px.Context, op string, args []sx.Sexp) core.Result {
 		if f != nil {
 			return r.Result("FAIL panic IsInstance of the inferred type", true)
 		}
+		// the same question of a FRESH value (no inferred type cached yet): the answer must not depend on hidden state of the value
+		if fresh, err := r.Env.BuildVal(v); err == nil {
+			if ok2, f2 := lat.SafeInst(r.Live, fresh); f2 == nil && ok2 != ok {
+				return r.Result("FAIL inst-depends-on-cache the inferred type has the value it was inferred from as an instance: "+sx.B(ok)+", a fresh copy of the value: "+sx.B(ok2), true)
+			}
+		}
 		if !ok {
 			class := op + "-not-inst"
 			if op == "dtype" && emptyKeyCulprit(r.Env, v) {
@@ -317,6 +323,17 @@ func gen(g *core.G) {
 		}
 	}
 
+	// the case family: commonType of every pair (the Enum / String['x'] merges with case-insensitive Enums), generalisation, the third and
+	// fourth law against every spelling
+	for _, a := range lat.CaseFamily() {
+		g.Emit("gen " + s(a))
+		for _, b := range lat.CaseFamily() {
+			g.Emit("common " + s(a) + " " + s(b))
+		}
+		for _, w := range lat.CaseFamilyStrings() {
+			g.Emit("infer " + s(a) + " " + lat.VS(w).String())
+		}
+	}
 	// the Callable types: generalisation of each, commonType of a sample of the pairs
 	for _, a := range lat.CallableUniverse() {
 		g.Emit("gen " + s(a))
